@@ -421,6 +421,50 @@ Fixpoint scen_run (steps : list (list Z)) (s : bst) : list Z :=
   | st :: r => let '(o, s') := scen_step st s in lenZ o :: o ++ scen_run r s'
   end.
 
+(* ---- lookups while a writer is stopped inside its critical section (op 12, go/impl/cmd/implrun/c11busy.go) ----
+   ReloadBCache / SortBCache set BBusyState around their work. [stall v]: a writer of another process stopped right after setting
+   the flag to v - slower than the reader's wait, or killed there (the flag then stays behind in the shared memory for the next
+   server run) -; the table and both indexes are whole, only the flag differs. *)
+Definition stall (v : Z) (s : bst) : bst := mk_bst (bfile s) (btbl s) v (bsn s) (bsc s).
+(* the head of getBidByNameCore / getBidByClassCore: when the flag is set on [entry], sleep one second (no time in the model;
+   [after] = what the flag reads when the second is over), then search in either case *)
+Definition waited {A} (entry after : Z) (search : A) : A :=
+  if entry =? 0 then search else if after =? 0 then search else search.
+Definition st_get_bid (after : Z) (s : bst) (q : list Z) : res Z := waited (bbusy s) after (get_bid (snames s) (bsn s) q).
+Definition st_find_by_name (after : Z) (s : bst) (q : list Z) (asc : bool) : res Z := waited (bbusy s) after (find_by_name (snames s) q asc).
+Definition st_autocomplete (after : Z) (s : bst) (q : list Z) (asc : bool) : res Z := waited (bbusy s) after (autocomplete (snames s) q asc).
+Definition st_find_by_class (after : Z) (s : bst) (cls q : list Z) (asc : bool) : res Z :=
+  waited (bbusy s) after (find_by_class (ctitles s) (cnames s) cls q asc).
+Definition st_page_walk (after : Z) (s : bst) (k : nat) (asc : bool) : res (Z * list Z) := waited (bbusy s) after (page_walk (snames s) k asc).
+Definition st_page_walk_class (after : Z) (s : bst) (k : nat) (asc : bool) : res (Z * list Z) :=
+  waited (bbusy s) after (page_walk_class (ctitles s) (cnames s) k asc).
+
+(* one observation of op 12 (the lookup steps 5, 6, 7 of a scenario), the flag reading [after] when a wait is over *)
+Definition obs_step (after : Z) (st : list Z) (s : bst) : list Z :=
+  match st with
+  | 5 :: q =>
+      status_of 0 s ++ [resZ (st_get_bid after s q); resZ (st_find_by_name after s q true); resZ (st_find_by_name after s q false);
+                        resZ (st_autocomplete after s q true); resZ (st_autocomplete after s q false)]
+  | 6 :: l :: r =>
+      let cls := firstn (Z.to_nat l) r in let q := skipn (Z.to_nat l) r in
+      status_of 0 s ++ [resZ (st_find_by_class after s cls q true); resZ (st_find_by_class after s cls q false)]
+  | [7; k; asc; by_] =>
+      let '(e, v) := walk_out (if by_ =? 0 then st_page_walk after s (Z.to_nat k) (negb (asc =? 0))
+                               else st_page_walk_class after s (Z.to_nat k) (negb (asc =? 0))) in
+      status_of e s ++ v
+  | _ => [-9]
+  end.
+Definition framed (o : list Z) : list Z := lenZ o :: o.
+(* load; phase A (nobody writing); stall v; phase B (the flag set all the time); release; phase C (several goroutines at once,
+   nobody writing: every answer is the sequential one - there is no parallelism in the model, so: no answer differs) *)
+Definition stalled_run (inst : list Z) (v : Z) (obs : list (list Z)) : list Z :=
+  let '(o0, s) := scen_step (1 :: inst) fresh in
+  let sb := stall v s in
+  let sr := stall 0 sb in
+  framed o0 ++ concat (map (fun st => framed (obs_step (bbusy s) st s)) obs)
+    ++ framed (status_of 0 sb) ++ concat (map (fun st => framed (obs_step v st sb)) obs)
+    ++ framed (status_of 0 sr) ++ framed (status_of 0 sr ++ [0; -1; -1; 0]).
+
 (* ---- wire ---- *)
 (* a group of NUL-terminated strings *)
 Fixpoint split0 (l cur : list Z) : list (list Z) :=
@@ -438,6 +482,7 @@ Fixpoint chunk5 (l : list Z) : list (list Z) :=
    4 FindBoardAutoCompleteStartIdx [names][kw][asc]; 5 listing walk by name [names][k asc];
    7 listing walk by class [titles5][names][k asc] (both in by-class order);
    8 a history in fresh state: one group per step (scen_step);
+   12 [tail n records] [v G R] obs...: lookups with the flag left set to v over a whole table (stalled_run);
    10 filtered listing walk [names][whole titles, NUL-terminated][mode f...][k asc by] (both in the order of the index walked:
       by = 0 name, 1 class; mode 1 = title filter, 2 = keyword filter) *)
 Definition run_case (args : list (list Z)) : list Z :=
@@ -451,6 +496,7 @@ Definition run_case (args : list (list Z)) : list Z :=
   | [[7]; titles; names; [k; asc]] =>
       wire (fun r => fst r :: snd r) (page_walk_class (chunk5 titles) (split0 names []) (Z.to_nat k) (negb (asc =? 0)))
   | [8] :: steps => ST_OK :: scen_run steps fresh
+  | [12] :: inst :: [v; _; _] :: obs => ST_OK :: stalled_run inst v obs
   | [[10]; names; ftitles; mode :: f; [k; asc; by_]] =>
       let tf := if mode =? 1 then f else [] in
       let kw := if mode =? 1 then [] else f in
